@@ -21,7 +21,7 @@ Definition inv_check (s : cpc) : bool :=
   let t := tab_of s in
   let w := has_window_b s in
   (4 <=? lgk) && (lgk <=? 26) && (c_off s <=? 56) &&
-  nodupb t &&
+  nodupb t && negb (tbl_full lgk (N.of_nat (length t))) &&
   forallb (fun x => (x / 64 <? K) && negb (x =? U32MAX) &&
                     (negb w || (x mod 64 <? c_off s) || (c_off s + 8 <=? x mod 64))) t &&
   (negb w || ((N.of_nat (length (c_win s)) =? K) && forallb (fun b => b <? 256) (c_win s))) &&
